@@ -63,6 +63,10 @@ def arith(op, a: Val, b: Val) -> Val:
         return Val(STR, z3.Concat(a.v, b.v))
     if isinstance(a.t, TSeq) and isinstance(b.t, TSeq) and isinstance(op, ast.Add) and a.t == b.t:
         return Val(a.t, z3.Concat(a.v, b.v))
+    if isinstance(a.t, TTuple) and isinstance(b.t, TTuple) and isinstance(op, ast.Add):
+        from .core import TTuple as _TT
+
+        return Val(_TT(a.t.items + b.t.items), tuple(a.v) + tuple(b.v))
     if isinstance(a.t, TSetV) and isinstance(b.t, TSetV) and a.t == b.t:
         if isinstance(op, ast.BitOr):
             return Val(a.t, z3.SetUnion(a.v, b.v))
@@ -241,3 +245,48 @@ def length(heapops, heap, v: Val) -> Val:
     if isinstance(t, TTuple):
         return Val(INT, z3.IntVal(len(v.v)))
     raise Unsupported(f"len of {t}")
+
+
+# --------------------------------------------------------------------------- sequence algebra (reverse, map by a field)
+_seq_fns = {}
+SEQ_AXIOMS = {}
+
+
+def seq_rev(seq):
+    """SeqRev(s): the reversed sequence, as a function term (shared by code and spec)."""
+    so = seq.sort()
+    key = ("rev", so.sexpr())
+    if key not in _seq_fns:
+        f = z3.Function(f"SeqRev_{len(_seq_fns)}", so, so)
+        _seq_fns[key] = f
+        s_ = z3.Const("s!rev", so)
+        i = z3.Int("i!rev")
+        SEQ_AXIOMS[key] = [
+            z3.ForAll([s_], z3.Length(f(s_)) == z3.Length(s_), patterns=[f(s_)]),
+            z3.ForAll([s_, i], z3.Implies(z3.And(i >= 0, i < z3.Length(s_)), f(s_)[i] == s_[z3.Length(s_) - 1 - i]),
+                      patterns=[f(s_)[i]]),
+            # the two ends, instantiated whenever a reversed sequence is mentioned
+            z3.ForAll([s_], z3.Implies(z3.Length(s_) > 0, z3.And(f(s_)[0] == s_[z3.Length(s_) - 1],
+                                                                  f(s_)[z3.Length(s_) - 1] == s_[0])), patterns=[f(s_)]),
+            z3.ForAll([s_], z3.Implies(z3.Length(s_) > 1, f(s_)[1] == s_[z3.Length(s_) - 2]), patterns=[f(s_)]),
+        ]
+    return _seq_fns[key](seq)
+
+
+def seq_map_field(field_arr, seq, out_sort):
+    """SeqMapF(arr, s): element-wise heap field read  [arr[x] for x in s]  as a function term."""
+    so = seq.sort()
+    key = ("mapf", so.sexpr(), field_arr.sort().sexpr())
+    if key not in _seq_fns:
+        rs = z3.SeqSort(out_sort)
+        f = z3.Function(f"SeqMapF_{len(_seq_fns)}", field_arr.sort(), so, rs)
+        _seq_fns[key] = f
+        a = z3.Const("a!mapf", field_arr.sort())
+        s_ = z3.Const("s!mapf", so)
+        i = z3.Int("i!mapf")
+        SEQ_AXIOMS[key] = [
+            z3.ForAll([a, s_], z3.Length(f(a, s_)) == z3.Length(s_), patterns=[f(a, s_)]),
+            z3.ForAll([a, s_, i], z3.Implies(z3.And(i >= 0, i < z3.Length(s_)), f(a, s_)[i] == z3.Select(a, s_[i])),
+                      patterns=[f(a, s_)[i]]),
+        ]
+    return _seq_fns[key](field_arr, seq)
